@@ -67,6 +67,28 @@ def check_string(cls, v, ec, x, pat=None, deep=True):
     return out
 
 
+def check_highlights(cls, v, ec, x, ranges):
+    """highlight ranges add \\H\\ ... \\N\\ sequences: the encoding must still tokenize, and hold one H and one N per range"""
+    try:
+        enc = cls(x, highlights=[tuple(r) for r in ranges]).to_er7(ec)
+    except Exception as e:
+        from hl7apy.exceptions import InvalidHighlightRange
+        if isinstance(e, InvalidHighlightRange):
+            return []
+        return [('escape-highlights-raise:%s' % type(e).__name__, '%s(%r, highlights=%r): %s' % (cls.__name__, x, ranges, e))]
+    toks, problems = R.tokenize_escaped(enc, ec, _letters_for(v, ec))
+    out = []
+    if problems:
+        out.append(('escape-highlights:' + problems[0][0], '%s(%r, highlights=%r) -> %r' % (cls.__name__, x, ranges, enc)))
+    esc = ec['ESCAPE']
+    base = cls(x).to_er7(ec)
+    nh = enc.count(esc + 'H' + esc) - base.count(esc + 'H' + esc)
+    nn = enc.count(esc + 'N' + esc) - base.count(esc + 'N' + esc)
+    if (nh, nn) != (len(ranges), len(ranges)):
+        out.append(('escape-highlights:wrong-number-of-markers', '%s(%r, highlights=%r) -> %r' % (cls.__name__, x, ranges, enc)))
+    return out
+
+
 def check_parse_side(v, ec, enc):
     """text in the encoder's output language survives parse -> encode verbatim"""
     from hl7apy import parser as P
@@ -187,7 +209,15 @@ def sampled_cases(draw, cells):
     atoms = act + [esc] * 2 + letters + ['a', 'Z', '7', ' ', u'é'] + [esc + l + esc for l in letters] + [esc + l for l in 'FE'] + ['E' + esc]
     parts = draw(st.lists(st.sampled_from(atoms), min_size=1, max_size=20))
     x = ''.join(parts)[:60]
-    return {'kind': 'string', 'v': v, 'dt': dt, 'ec': {k: ec[k] for k in ec if k not in ('SEGMENT', 'GROUP')}, 'x': x}
+    hl = None
+    if len(x) >= 4 and esc not in x and draw(st.integers(0, 2)) == 0:      # ranges index the raw text: kept off existing sequences
+        a = draw(st.integers(0, len(x) - 3))
+        b = draw(st.integers(a + 1, len(x) - 1))
+        hl = [[a, b]]
+        if b + 2 < len(x) - 1 and draw(st.booleans()):
+            c = draw(st.integers(b + 1, len(x) - 2))
+            hl.append([c, draw(st.integers(c + 1, len(x) - 1))])
+    return {'kind': 'string', 'v': v, 'dt': dt, 'ec': {k: ec[k] for k in ec if k not in ('SEGMENT', 'GROUP')}, 'x': x, 'hl': hl}
 
 
 @st.composite
@@ -214,7 +244,10 @@ def check(case, acc=None):
     if case['kind'] == 'message':
         return check_in_message(v, case['ec'] or {k: ec[k] for k in ec if k not in ('SEGMENT', 'GROUP')}, dt, x)
     cls = T.lib(v).BASE_DATATYPES[dt]
-    return check_string(cls, v, ec, x)
+    out = check_string(cls, v, ec, x)
+    if case.get('hl') and not out:
+        out = check_highlights(cls, v, ec, x, case['hl'])
+    return out
 
 
 def replay(case, acc):
@@ -227,6 +260,8 @@ def _run(case, acc):
     acc.case(h([case['kind'], case['v'], case['dt'], case['ec'], case['x']]), nt, sample=case,
              label='%s:%s' % (case['kind'], 'post27' if T.vkey(case['v']) >= [2, 7] else 'pre27'))
     acc.extra['class:%s:%s' % (case['v'], case['dt'])] += 1
+    if case.get('hl'):
+        acc.label('with-highlights')
     return check(case)
 
 
